@@ -212,7 +212,11 @@ def run(tier):
         'distinct_nontrivial': len(seen),
         'rule': 'random image sizes (2..48 rows/cols plus > 2048 strips), pixel types RE32F_IM32F / RE16I_IM16I / AMP8I_PHS8I (random strictly increasing table), '
                 'row limits forcing 1..k segments; per case one whole-image write to a path plus 3 (quick) or 6 histories with random row-chunk partitions, '
-                'orders, flush placements and path / BytesIO / caller-file targets; distinct = (pixel type, segment-count class, large-dimension flag)',
+                'orders, flush placements and path / BytesIO / caller-file targets; distinct = (pixel type, segment-count class, large-dimension flag); '
+                'header interpretation (harness/hdr.py): every pixel type x segment sizes incl. 8192 / 8193 / > 8192 rows and columns and several segments on the real '
+                'writing-details, reader and writer classes; 250 (quick) stand-in headers outside the writer\'s table x metadata pixel types x AmpTable present / absent; '
+                'numpy.dtype for every kind, byte order and size 0..40; 15 (quick) real files parsed out of band, decoded with numpy alone and read back; 3 x 3 cross table '
+                'and relabelled files on the real reader',
         'samples': [fails[0]['case']] if fails else [{'rows': 17, 'cols': 9, 'pixel_type': 'RE16I_IM16I', 'row_limit': 5}],
         'stats': stats,
         'traces_validated_against_impl': stats.get('histories', 0),
